@@ -213,6 +213,26 @@ func (g *FnGen) doCall(ci ssa.CallInstruction, v ssa.Value) {
 		g.defaultPure[name] = true
 	}
 
+	// result values are created first (they may be named by the callee's assigns clause), the frame
+	// is havoced next, and only then are the results marked live and the ensures assumed.
+	var rs []Val
+	nres := sig.Results().Len()
+	for i := 0; i < nres; i++ {
+		rt := sig.Results().At(i).Type()
+		var rv Val
+		if ct != nil && ct.Pure {
+			rv = g.pureResult(name, i, rt, recv, args)
+		} else if ct != nil && ct.Fresh && i == 0 && g.D.sortOf(rt) == sortRef {
+			rv = Val{T: g.allocRef("res_"+sanitize(name), guard), S: sortRef, Go: rt}
+		} else {
+			rv = g.mkVal(g.freshConst(fmt.Sprintf("r%d_%s", i, sanitize(name)), g.D.sortOf(rt)), rt)
+		}
+		g.assume("true", g.wfFacts(rv), "type")
+		rs = append(rs, rv)
+	}
+	if ct != nil {
+		resultEnv(env, sig, rs)
+	}
 	// frame
 	if ct != nil && ct.HasAssign {
 		for _, a := range ct.Assigns {
@@ -228,25 +248,9 @@ func (g *FnGen) doCall(ci ssa.CallInstruction, v ssa.Value) {
 	// values captured by reference may have been changed by a callee that holds the closure
 	// (handled by the computed write sets, which include cell keys).
 
-	// results. A result is live after the call; Live is extended here (not assumed on the
-	// pre-call Live), so that "fresh(result)" in an ensures clause is consistent.
-	var rs []Val
-	nres := sig.Results().Len()
-	for i := 0; i < nres; i++ {
-		rt := sig.Results().At(i).Type()
-		var rv Val
-		if ct != nil && ct.Pure {
-			rv = g.pureResult(name, i, rt, recv, args)
-			g.assume("true", g.wfFacts(rv), "type")
-		} else if ct != nil && ct.Fresh && i == 0 && g.D.sortOf(rt) == sortRef {
-			rv = Val{T: g.allocRef("res_"+sanitize(name), guard), S: sortRef, Go: rt}
-		} else {
-			rv = g.mkVal(g.freshConst(fmt.Sprintf("r%d_%s", i, sanitize(name)), g.D.sortOf(rt)), rt)
-			g.assume("true", g.wfFacts(rv), "type")
-		}
+	for _, rv := range rs {
 		g.markLive(rv)
 		g.assumeTypeInv(rv, guard)
-		rs = append(rs, rv)
 	}
 	if v != nil {
 		switch nres {
@@ -263,7 +267,6 @@ func (g *FnGen) doCall(ci ssa.CallInstruction, v ssa.Value) {
 		g.assume(guard, g.typeInvTerm(a, g.st), "typeinv-after-publish")
 	}
 	if ct != nil {
-		resultEnv(env, sig, rs)
 		for i, e := range ct.Ensures {
 			ctx := &EvalCtx{g: g, env: env, st: g.st, oldSt: pre, oldEnv: env, guard: guard}
 			g.assumeClause(guard, e.E, ctx, fmt.Sprintf("ensures:%s:%s", name, clauseLabel(e, i)))
@@ -318,7 +321,7 @@ func (g *FnGen) havocAssign(a string, env map[string]Val, sig *types.Signature, 
 	a = strings.TrimSpace(a)
 	if i := strings.LastIndex(a, "."); i > 0 && !strings.Contains(a, "(") && !strings.HasPrefix(a, "key:") {
 		if e, err := ParseExpr(a[:i]); err == nil {
-			if id, ok := e.(EIdent); !ok || hasKey(env, id.Name) {
+			if hasKey(env, rootIdent(e)) {
 				ctx := &EvalCtx{g: g, env: env, st: g.st, oldSt: g.st, oldEnv: env}
 				base := g.eval(e, ctx)
 				_, idx := lookupFieldByName(base.Go, a[i+1:])
@@ -338,6 +341,20 @@ func (g *FnGen) havocAssign(a string, env map[string]Val, sig *types.Signature, 
 						cur = g.selectFieldIdx(cur, fi, g.st)
 					}
 				}
+			}
+		}
+	}
+	if i := strings.Index(a, "("); i > 0 && strings.HasSuffix(a, ")") {
+		if gf, ok := g.S.GhostFields[a[:i]]; ok {
+			if e, err := ParseExpr(a[i+1 : len(a)-1]); err == nil && hasKey(env, rootIdent(e)) {
+				key := g.ensureGhostField(a[:i])
+				g.checkCalleeGhost(ci, key)
+				ctx := &EvalCtx{g: g, env: env, st: g.st, oldSt: g.st, oldEnv: env}
+				arg := g.eval(e, ctx)
+				rs, _, _ := ctypeByName(g.D, g.P, gf.ResType)
+				nv := g.freshConst("hv_"+a[:i], rs)
+				g.st[key] = g.def("h", g.D.heapSorts[key], store(g.D.get(g.st, key), arg.T, nv))
+				return
 			}
 		}
 	}
@@ -849,4 +866,36 @@ func (g *FnGen) markLive(v Val) {
 	}
 	live := g.D.get(g.st, liveKey)
 	g.st[liveKey] = g.def("live", g.D.heapSorts[liveKey], store(live, ref, "true"))
+}
+
+func rootIdent(e Expr) string {
+	for {
+		switch x := e.(type) {
+		case EIdent:
+			return x.Name
+		case ESel:
+			e = x.X
+		case EIndex:
+			e = x.X
+		case ETypeAssert:
+			e = x.X
+		default:
+			return ""
+		}
+	}
+}
+
+// checkCalleeGhost: ghost state written by a callee must be named by the caller's assigns clause.
+func (g *FnGen) checkCalleeGhost(ci ssa.CallInstruction, key string) {
+	r := g.root()
+	if r.C == nil || !r.C.HasAssign {
+		return
+	}
+	for _, a := range r.C.Assigns {
+		ak, _ := g.resolveAssignPlace(a)
+		if ak == "*" || ak == key {
+			return
+		}
+	}
+	g.oblige("assigns", g.siteNames[ci]+":callee-writes:"+key, g.curGuard, "false", "callee writes ghost state "+key+", which the assigns clause does not permit", ci.Pos())
 }
